@@ -7,6 +7,7 @@ package main
 
 import (
 	"fmt"
+	"os"
 	"sort"
 	"strings"
 	"sync"
@@ -32,6 +33,7 @@ type localCfg struct {
 	depth   int
 	maxSt   int
 	prefix  []string // scripted inputs (by name) leading to the state the BFS starts from
+	expect  string   // what the scripted prefix is meant to reach: "R<round> S<step> lock=<round|-> | <own votes>"; "" = not stated
 }
 
 type inKind int
@@ -40,10 +42,10 @@ const (
 	inProposalBlock inKind = iota // proposal + its single block part
 	inProposalOnly
 	inPartOnly
-	inVote  // (symmetric) next unused other validator votes
-	inVoteJ // explicit validator
-	inEquiv // a validator that already voted in (r,t) votes another value
-	inRedeliver // the equivocating vote for this value is delivered again
+	inVote      // (symmetric) next unused other validator votes
+	inVoteJ     // explicit validator
+	inEquiv     // a validator whose only vote in (r,t) so far is `from` also votes `blk`
+	inRedeliver // the equivocating vote `blk` of a validator whose first vote was `from` is delivered again
 	inMaj23     // a peer claims +2/3 for this value in (r,t) (what the reactor does on a VoteSetMaj23Message)
 	inTimeout
 	inInternal
@@ -56,6 +58,7 @@ type input struct {
 	pol  int
 	typ  byte
 	j    int
+	from int // inEquiv/inRedeliver: the value of the validator's first vote (0=A 1=B 2=nil)
 }
 
 var valNames = []string{"A", "B", "nil"}
@@ -84,11 +87,21 @@ func (c *localCfg) alphabet(f *csnet.Fixture) []input {
 			for v := 0; v < 3; v++ {
 				if c.sym {
 					a = append(a, input{kind: inVote, r: r, typ: t, blk: v})
-					if c.equiv {
-						a = append(a, input{kind: inEquiv, r: r, typ: t, blk: v})
+					// the equivocator is named by the value of its first vote: "some validator that voted `from` also votes v" is a
+					// function of the symmetry-reduced state, "some validator that already voted" is not
+					for from := 0; from < 3; from++ {
+						if from == v {
+							continue
+						}
+						if c.equiv {
+							a = append(a, input{kind: inEquiv, r: r, typ: t, blk: v, from: from})
+						}
+						if c.maj23 {
+							a = append(a, input{kind: inRedeliver, r: r, typ: t, blk: v, from: from})
+						}
 					}
 					if c.maj23 {
-						a = append(a, input{kind: inRedeliver, r: r, typ: t, blk: v}, input{kind: inMaj23, r: r, typ: t, blk: v})
+						a = append(a, input{kind: inMaj23, r: r, typ: t, blk: v})
 					}
 				} else {
 					for j := range c.powers {
@@ -117,9 +130,9 @@ func (in input) String() string {
 	case inVoteJ:
 		return fmt.Sprintf("Vote(v%d,%s,r%d,%s)", in.j, tn[in.typ], in.r, valNames[in.blk])
 	case inEquiv:
-		return fmt.Sprintf("EquivocatingVote(%s,r%d,%s)", tn[in.typ], in.r, valNames[in.blk])
+		return fmt.Sprintf("EquivocatingVote(%s,r%d,%s->%s)", tn[in.typ], in.r, valNames[in.from], valNames[in.blk])
 	case inRedeliver:
-		return fmt.Sprintf("RedeliverEquivocatingVote(%s,r%d,%s)", tn[in.typ], in.r, valNames[in.blk])
+		return fmt.Sprintf("RedeliverEquivocatingVote(%s,r%d,%s->%s)", tn[in.typ], in.r, valNames[in.from], valNames[in.blk])
 	case inMaj23:
 		return fmt.Sprintf("PeerClaimsMaj23(%s,r%d,%s)", tn[in.typ], in.r, valNames[in.blk])
 	case inTimeout:
@@ -145,8 +158,8 @@ type localInst struct {
 	total    int64
 	soup     *soup // everything delivered to the node plus its own votes
 	used     map[vsKey]map[int]map[string]bool
-	equivBy  map[string]int // "r/t/val" -> validator whose equivocating vote for val was delivered
-	redeliv  map[string]int
+	first    map[vsKey]map[int]string // value of each validator's first delivered vote per vote set
+	redeliv  map[string]int           // "r/t/from/to" -> number of re-deliveries
 	claims   map[string]bool
 	sentSeen int
 	commits  int
@@ -154,19 +167,33 @@ type localInst struct {
 }
 
 var (
-	voteCache sync.Map
-	propCache sync.Map
+	voteCache  sync.Map
+	propCache  sync.Map
+	blockCache sync.Map
 )
 
 func newLocal(c *localCfg, f *csnet.Fixture) *localInst {
 	li := &localInst{c: c, f: f, soup: newSoup(c.powers), used: map[vsKey]map[int]map[string]bool{}, height: 1,
-		equivBy: map[string]int{}, redeliv: map[string]int{}, claims: map[string]bool{}}
+		first: map[vsKey]map[int]string{}, redeliv: map[string]int{}, claims: map[string]bool{}}
 	li.n = f.NewNode(c.self, 0)
-	st := f.GenesisStatus()
-	for b := 0; b < 2; b++ {
-		app := csnet.NewTrivApp(f.Vals, uint64(b+1))
-		li.blocks[b], li.parts[b] = f.MakeBlock(st, app, 0, nil, nil)
-		li.ids[b] = csnet.BlockID(li.blocks[b], li.parts[b])
+	// the two candidate blocks are the same for every execution of a search (MakeBlock is deterministic); the node only
+	// ever sees their parts (bytes) and decodes its own copy
+	type cand struct {
+		blocks [2]*types.Block
+		parts  [2]*types.PartSet
+		ids    [3]types.BlockID
+	}
+	if x, ok := blockCache.Load(c.name); ok {
+		cd := x.(*cand)
+		li.blocks, li.parts, li.ids = cd.blocks, cd.parts, cd.ids
+	} else {
+		st := f.GenesisStatus()
+		for b := 0; b < 2; b++ {
+			app := csnet.NewTrivApp(f.Vals, uint64(b+1))
+			li.blocks[b], li.parts[b] = f.MakeBlock(st, app, 0, nil, nil)
+			li.ids[b] = csnet.BlockID(li.blocks[b], li.parts[b])
+		}
+		blockCache.Store(c.name, &cand{li.blocks, li.parts, li.ids})
 	}
 	for _, p := range c.powers {
 		li.total += p
@@ -180,6 +207,10 @@ func (li *localInst) record(vs vsKey, j int, val string) {
 	}
 	if li.used[vs][j] == nil {
 		li.used[vs][j] = map[string]bool{}
+		if li.first[vs] == nil {
+			li.first[vs] = map[int]string{}
+		}
+		li.first[vs][j] = val
 	}
 	li.used[vs][j][val] = true
 	if vs.t == types.VoteTypePrevote {
@@ -266,9 +297,16 @@ func (li *localInst) apply(in input) bool {
 		// ConsensusReactor.Receive: votes.SetPeerMaj23(msg.Round, msg.Type, peerID, msg.BlockID)
 		n.CS.GetRoundState().Votes.SetPeerMaj23(in.r, in.typ, fmt.Sprintf("claimer%d", len(li.claims)), li.ids[in.blk])
 	case inRedeliver:
-		k := fmt.Sprintf("%d/%d/%d", in.r, in.typ, in.blk)
-		j, ok := li.equivBy[k]
-		if !ok || li.redeliv[k] >= 2 {
+		k := fmt.Sprintf("%d/%d/%d/%d", in.r, in.typ, in.from, in.blk)
+		vs := vsKey{in.r, in.typ}
+		j := -1
+		for x := range li.c.powers {
+			if x != li.c.self && len(li.used[vs][x]) == 2 && li.first[vs][x] == idKey(li.ids[in.from]) && li.used[vs][x][idKey(li.ids[in.blk])] {
+				j = x
+				break
+			}
+		}
+		if j < 0 || li.redeliv[k] >= 2 {
 			return false
 		}
 		li.redeliv[k]++
@@ -284,7 +322,7 @@ func (li *localInst) apply(in input) bool {
 		} else if in.kind == inEquiv {
 			j = -1
 			for x := range li.c.powers {
-				if x != li.c.self && len(li.used[vs][x]) == 1 && !li.used[vs][x][idKey(li.ids[in.blk])] {
+				if x != li.c.self && len(li.used[vs][x]) == 1 && li.first[vs][x] == idKey(li.ids[in.from]) {
 					j = x
 					break
 				}
@@ -292,7 +330,6 @@ func (li *localInst) apply(in input) bool {
 			if j < 0 {
 				return false
 			}
-			li.equivBy[fmt.Sprintf("%d/%d/%d", in.r, in.typ, in.blk)] = j
 		} else if li.used[vs][j][idKey(li.ids[in.blk])] {
 			return false // exact duplicate: no-op
 		}
@@ -354,23 +391,77 @@ func (li *localInst) observe() (string, string) {
 	return "", ""
 }
 
-func (li *localInst) tallyKey() string {
-	// canonical rendering of the soup; with symmetry reduction the other validators are anonymous
-	group := map[string][]string{}
-	add := func(t string, set map[msg]bool) {
-		for m := range set {
-			k := fmt.Sprintf("%s r%d", t, m.r)
-			who := fmt.Sprintf("%d", m.p)
-			if li.c.sym && m.p != li.c.self {
-				who = "x"
-			}
-			group[k] = append(group[k], fmt.Sprintf("%s:%.8x", who, m.v))
+// ownVotes renders the node's own votes in the soup (round:type:value with values A, B, nil, other), sorted.
+func (li *localInst) ownVotes() string {
+	name := func(v string) string {
+		switch v {
+		case idKey(li.ids[0]):
+			return "A"
+		case idKey(li.ids[1]):
+			return "B"
+		case nilV:
+			return "nil"
+		}
+		return "other"
+	}
+	var out []string
+	for m := range li.soup.pv {
+		if m.p == li.c.self {
+			out = append(out, fmt.Sprintf("r%d:pv:%s", m.r, name(m.v)))
 		}
 	}
-	add("pv", li.soup.pv)
-	add("pc", li.soup.pc)
+	for m := range li.soup.pc {
+		if m.p == li.c.self {
+			out = append(out, fmt.Sprintf("r%d:pc:%s", m.r, name(m.v)))
+		}
+	}
+	sort.Strings(out)
+	return strings.Join(out, " ")
+}
+
+// reached renders the state a scripted prefix led to, in the format of localCfg.expect.
+func (li *localInst) reached() string {
+	rs := li.n.CS.GetRoundState()
+	lock := "-"
+	if rs.LockedBlock != nil {
+		lock = fmt.Sprint(rs.LockedRound)
+	}
+	return fmt.Sprintf("R%d S%d lock=%s | %s", rs.Round, rs.Step, lock, li.ownVotes())
+}
+
+func (li *localInst) tallyKey() string {
+	// canonical rendering of the soup. With symmetry reduction the other validators are anonymous, but the votes of ONE
+	// validator in one (type, round) stay together: under equivocation {v1:{A,nil}, v2:{B}} and {v1:{B,nil}, v2:{A}} are
+	// different states (who may still equivocate, how many distinct validators voted), although the multisets of
+	// values are equal. Vote sets of different (type, round) are independent in the node, the oracle and the harness
+	// (nextUnused / equivocation are per vote set), so anonymous identities need not be correlated across them.
+	group := map[string]map[int][]string{}
+	add := func(t string, typ byte, set map[msg]bool) {
+		for m := range set {
+			k := fmt.Sprintf("%s r%d", t, m.r)
+			if group[k] == nil {
+				group[k] = map[int][]string{}
+			}
+			tag := "" // the first vote of a validator is the one the node counts; mark it
+			if li.first[vsKey{m.r, typ}][m.p] == m.v {
+				tag = "1st="
+			}
+			group[k][m.p] = append(group[k][m.p], tag+fmt.Sprintf("%.8x", m.v))
+		}
+	}
+	add("pv", types.VoteTypePrevote, li.soup.pv)
+	add("pc", types.VoteTypePrecommit, li.soup.pc)
 	var parts []string
-	for k, vs := range group {
+	for k, byVal := range group {
+		var vs []string
+		for p, vals := range byVal {
+			sort.Strings(vals)
+			who := fmt.Sprintf("%d", p)
+			if li.c.sym && p != li.c.self {
+				who = "x"
+			}
+			vs = append(vs, who+":{"+strings.Join(vals, ",")+"}")
+		}
 		sort.Strings(vs)
 		parts = append(parts, k+"["+strings.Join(vs, ",")+"]")
 	}
@@ -459,6 +550,16 @@ func runLocal(r *vk.Run, c *localCfg) vk.Result {
 					return vk.Outcome{}
 				}
 			}
+			if len(hist) == 0 {
+				if os.Getenv("C01_DUMP_START") != "" {
+					fmt.Fprintf(os.Stderr, "START %s :: %s\n", c.name, li.reached())
+				}
+				// A scripted prefix depends on the fixture (who proposes when) and on the code: if it no longer leads where it
+				// is meant to, the search still runs from wherever it got, but the run is not called exhaustive.
+				if got := li.reached(); c.expect != "" && got != c.expect {
+					r.Capped(fmt.Sprintf("local/%s: the scripted prefix reached %q, meant to reach %q", c.name, got, c.expect))
+				}
+			}
 			if len(li.n.App.Commits) > 0 {
 				// committed: terminal for this search (the next height is explored from scripted prefixes)
 				return vk.Outcome{Key: "COMMITTED " + fmt.Sprintf("%x", li.n.App.Commits[0].Hash.Bytes()[:6]), Terminal: true}
@@ -478,16 +579,21 @@ func localConfigs(r *vk.Run) []*localCfg {
 	PA := "Proposal+Block(r0,A,pol-1)"
 	T := "FireTimeout"
 	prefixes := []struct {
-		name string
-		pre  []string
+		name   string
+		pre    []string
+		expect string
 	}{
-		{"init", nil},
-		{"prevoted-nil-r0", []string{T, T}},
-		{"locked-A-r0", []string{T, PA, pvA, pvA}},
-		{"locked-A-moved-to-r1", []string{T, PA, pvA, pvA, pcN, pcN, T}},
-		{"nil-polka-r0-moved-to-r1", []string{T, T, pvN, pvN, pcN, pcN, T}},
-		{"commit-step-without-block", []string{T, pcA, pcA, pcA}},
-		{"locked-A-r1-proposal-B", []string{T, PA, pvA, pvA, pcN, pcN, T, "Proposal+Block(r1,B,pol-1)"}},
+		{"init", nil, "R0 S1 lock=- | "},
+		{"prevoted-nil-r0", []string{T, T}, "R0 S4 lock=- | r0:pv:nil"},
+		{"locked-A-r0", []string{T, PA, pvA, pvA}, "R0 S6 lock=0 | r0:pc:A r0:pv:A"},
+		{"locked-A-moved-to-r1", []string{T, PA, pvA, pvA, pcN, pcN, T}, "R1 S3 lock=0 | r0:pc:A r0:pv:A"},
+		{"nil-polka-r0-moved-to-r1", []string{T, T, pvN, pvN, pcN, pcN, T}, "R1 S4 lock=- | r0:pc:nil r0:pv:nil r1:pv:nil"},
+		{"commit-step-without-block", []string{T, pcA, pcA, pcA}, "R0 S8 lock=- | r0:pc:nil"},
+		{"locked-A-r1-proposal-B", []string{T, PA, pvA, pvA, pcN, pcN, T, "Proposal+Block(r1,B,pol-1)"}, "R1 S4 lock=0 | r0:pc:A r0:pv:A r1:pv:A"},
+		// a polka for a block the node does not hold (proposal withheld from it): it may only precommit nil, and what it
+		// precommitted binds its later prevotes
+		{"polka-for-unheld-A-r0", []string{T, T, pvA, pvA, pvA}, "R0 S6 lock=- | r0:pc:nil r0:pv:nil"},
+		{"polka-for-unheld-A-moved-to-r1", []string{T, T, pvA, pvA, pvA, pcN, pcN, T}, "R1 S4 lock=- | r0:pc:nil r0:pv:nil r1:pv:nil"},
 	}
 	var out []*localCfg
 	eq := []int64{1, 1, 1, 1}
@@ -506,29 +612,35 @@ func localConfigs(r *vk.Run) []*localCfg {
 			d = 5
 		}
 		out = append(out, &localCfg{name: fmt.Sprintf("eq4/self%d(non-proposer)/sym/%s", other, p.name), powers: eq, self: other, rounds: 2, sym: true,
-			depth: d, maxSt: r.Pick(60000, 1500000), prefix: p.pre})
+			depth: d, maxSt: r.Pick(60000, 1500000), prefix: p.pre, expect: p.expect})
 	}
 	// three rounds in the alphabet: lock taken at round 1 (after skipping round 0 on nil precommits), node now in round 2;
 	// an OLDER polka (round 0) must not release the lock
 	pc0N, pv1A, pc1N := "Vote(next,precommit,r0,nil)", "Vote(next,prevote,r1,A)", "Vote(next,precommit,r1,nil)"
 	lockR1 := []string{T, pc0N, pc0N, pc0N, "Proposal+Block(r1,A,pol-1)", pv1A, pv1A}
 	out = append(out, &localCfg{name: fmt.Sprintf("eq4/self%d(non-proposer)/sym/3rounds/locked-A-r1", other), powers: eq, self: other, rounds: 3, sym: true,
-		depth: r.Pick(3, 5), maxSt: r.Pick(60000, 1500000), prefix: lockR1})
+		depth: r.Pick(3, 5), maxSt: r.Pick(60000, 1500000), prefix: lockR1, expect: "R1 S6 lock=1 | r1:pc:A r1:pv:A"})
 	out = append(out, &localCfg{name: fmt.Sprintf("eq4/self%d(non-proposer)/sym/3rounds/locked-A-r1-moved-to-r2", other), powers: eq, self: other, rounds: 3, sym: true,
-		depth: r.Pick(4, 6), maxSt: r.Pick(60000, 1500000), prefix: append(append([]string{}, lockR1...), pc1N, pc1N, T)})
+		depth: r.Pick(4, 6), maxSt: r.Pick(60000, 1500000), prefix: append(append([]string{}, lockR1...), pc1N, pc1N, T),
+		expect: "R2 S3 lock=1 | r1:pc:A r1:pv:A"})
 	// four rounds: lock A at r0, no polka at r1, RE-lock A at r2 (the lock round must move to 2), node now in round 3;
-	// a late polka for B at round 1 is older than the re-lock and must not release it
+	// a late polka for B / nil at round 1 is older than the re-lock and must not release it. The node is the proposer of
+	// round 2 here (it re-proposes its locked block itself), so that in round 3 - where the stale polka arrives - the
+	// proposal is an environment input again and the node has not prevoted yet.
+	p2 := f.ProposerAt(st, 2)
 	pv2A, pc2N := "Vote(next,prevote,r2,A)", "Vote(next,precommit,r2,nil)"
 	pv1N := "Vote(next,prevote,r1,nil)"
-	relock := []string{T, PA, pvA, pvA, pcN, pcN, T, T, pv1N, pv1N, T, pc1N, pc1N, T, "Proposal+Block(r2,A,pol-1)", pv2A, pv2A}
-	out = append(out, &localCfg{name: fmt.Sprintf("eq4/self%d(non-proposer)/sym/4rounds/relocked-A-r2", other), powers: eq, self: other, rounds: 4, minR: 1, sym: true,
-		depth: r.Pick(3, 5), maxSt: r.Pick(60000, 1500000), prefix: relock})
-	out = append(out, &localCfg{name: fmt.Sprintf("eq4/self%d(non-proposer)/sym/4rounds/relocked-A-r2-moved-to-r3", other), powers: eq, self: other, rounds: 4, minR: 1, sym: true,
-		depth: r.Pick(4, 6), maxSt: r.Pick(60000, 1500000), prefix: append(append([]string{}, relock...), pc2N, pc2N, T)})
+	relock := []string{T, PA, pvA, pvA, pcN, pcN, T, T, pv1N, pv1N, T, pc1N, pc1N, T, pv2A, pv2A}
+	relockVotes := "r0:pc:A r0:pv:A r1:pc:nil r1:pv:A r2:pc:A r2:pv:A"
+	out = append(out, &localCfg{name: fmt.Sprintf("eq4/self%d(proposer-of-r2)/sym/4rounds/relocked-A-r2", p2), powers: eq, self: p2, rounds: 4, minR: 1, sym: true,
+		depth: r.Pick(3, 5), maxSt: r.Pick(60000, 1500000), prefix: relock, expect: "R2 S6 lock=2 | " + relockVotes})
+	out = append(out, &localCfg{name: fmt.Sprintf("eq4/self%d(proposer-of-r2)/sym/4rounds/relocked-A-r2-moved-to-r3", p2), powers: eq, self: p2, rounds: 4, minR: 1, sym: true,
+		depth: r.Pick(4, 6), maxSt: r.Pick(60000, 1500000), prefix: append(append([]string{}, relock...), pc2N, pc2N, T),
+		expect: "R3 S3 lock=2 | " + relockVotes})
 	// peer +2/3 claims, equivocation and re-delivery of the equivocating vote (one counted vote per validator per value,
 	// whatever the peers claim): round 0 only, from the locked state
 	out = append(out, &localCfg{name: fmt.Sprintf("eq4/self%d(non-proposer)/sym/equiv+maj23+redelivery/locked-A-r0", other), powers: eq, self: other, rounds: 1, sym: true,
-		equiv: true, maj23: true, split: true, depth: r.Pick(6, 8), maxSt: r.Pick(60000, 1500000), prefix: prefixes[2].pre})
+		equiv: true, maj23: true, split: true, depth: r.Pick(5, 7), maxSt: r.Pick(60000, 1500000), prefix: prefixes[2].pre, expect: prefixes[2].expect})
 	if !r.Quick() {
 		// the node is the proposer of round 0 / round 1 (its own block O enters the alphabet implicitly)
 		for _, self := range []int{p0, p1} {
